@@ -22,6 +22,8 @@ import (
 	enginetypes "github.com/projecteru2/core/engine/types"
 	"github.com/projecteru2/core/lock"
 	"github.com/projecteru2/core/resource"
+	"github.com/projecteru2/core/resource/cobalt"
+	"github.com/projecteru2/core/resource/plugins/cpumem"
 	plugintypes "github.com/projecteru2/core/resource/plugins/types"
 	resourcetypes "github.com/projecteru2/core/resource/types"
 	"github.com/projecteru2/core/store"
@@ -335,7 +337,20 @@ func NewEnv(t *testing.T, dir string, g *Gate, eng *Engines) *Env {
 			}
 			return &storeW{Store: s, e: e}
 		},
-		func(m resource.Manager) resource.Manager { e.Rmgr = m; return &rmgrW{Manager: m, e: e} },
+		func(m resource.Manager) resource.Manager {
+			// e.Rmgr: an unwrapped manager for read-backs; the Calcium gets a manager over the decorated plugin
+			e.Rmgr = m
+			plugin, err := cpumem.NewPlugin(context.Background(), cfg, t)
+			if err != nil {
+				t.Fatalf("cpumem.NewPlugin: %v", err)
+			}
+			mgr, err := cobalt.New(cfg)
+			if err != nil {
+				t.Fatalf("cobalt.New: %v", err)
+			}
+			mgr.AddPlugins(&pluginW{Plugin: plugin, e: e})
+			return &rmgrW{Manager: mgr, e: e}
+		},
 		func(w wal.WAL) wal.WAL { e.Wal = w; return &walW{WAL: w, e: e} },
 	)
 	return e
@@ -617,8 +632,17 @@ type rmgrW struct {
 	e *Env
 }
 
+// manager calls are logged (the trace needs e.g. the planned count of every Alloc) but the fault / crash
+// positions are the plugin calls underneath them
 func (m *rmgrW) do(ctx context.Context, method string, args Event, f func() error) error {
-	return m.e.G.Do(ctx, "rmgr", method, args, false, f)
+	m.e.G.Pass()
+	err := f()
+	ev := Event{"ev": "Ext", "k": 0, "op": opOf(ctx), "target": "rmgr", "method": method, "class": class(err)}
+	for a, v := range args {
+		ev[a] = v
+	}
+	m.e.G.Emit(ev)
+	return err
 }
 
 func (m *rmgrW) AddNode(ctx context.Context, node string, r resourcetypes.Resources, info *enginetypes.Info) (res resourcetypes.Resources, err error) {
